@@ -629,6 +629,14 @@ def _proves_two(den_arg, pc):
     apps = [x for x in tm.walk(den_arg) if x.op == "call" and call_name(x) == "np.append"]
     if len(apps) >= 2 and any(any(y is x for y in tm.walk(a.a[1][0])) for a in apps for x in apps if x is not a):
         return "the array lists positions in a vector that had a sentinel appended at both ends"
+    # the same sentinel idiom with one concatenation: positions where concatenate(([k], xs, [k])) == k
+    for x in tm.walk(den_arg):
+        if x.op == "cmp" and x.a[0] == "==":
+            for k, arr in ((x.a[1], x.a[2]), (x.a[2], x.a[1])):
+                if k.op == "const" and arr.op == "call" and call_name(arr) in ("np.concatenate", "np.hstack") and arr.a[1] and arr.a[1][0].op in ("list", "tuple"):
+                    ends = [z for z in arr.a[1][0].a if (z.op in ("list", "tuple") and len(z.a) == 1 and z.a[0] is k) or z is k]
+                    if len(ends) >= 2:
+                        return "the array lists the positions of %s in a vector that has %s at both ends" % (tm.show(k, 1), tm.show(k, 1))
     # single-element case excluded by the (short-circuit) condition itself
     for c, pol in symeval.pc_conds(pc):
         if not pol:
